@@ -154,7 +154,7 @@ impl Serializable for TracingSecretKey {
             n += ser.write(pk)?;
         }
 
-        n = ser.write_leb128_u64(self.users.len() as u64)?;
+        n += ser.write_leb128_u64(self.users.len() as u64)?;
         for id in &self.users {
             n += ser.write(id)?;
         }
